@@ -1,4 +1,59 @@
-(* placeholder while developing *)
-From XV Require Import model.Sched.
-Theorem C06_placeholder : True. Proof. exact I. Qed.
-Print Assumptions C06_placeholder.
+(* C06 - every job reaches a truthful, stable final state and the experiment exits.
+   Statements only (model: model/Sched.v, `step` = the repaired scheduler, `step_prefix` = the
+   literal code of the unchanged tree); every proof is `exact <lemma>`.                       *)
+From Coq Require Import ZArith List Bool.
+From XV Require Import model.Sched proofs.Sched_lemmas proofs.Sched_inv proofs.Sched_thm.
+Import ListNotations.
+Open Scope Z_scope.
+
+(* the state assigned when the coroutine leaves its loop is finished and no later transition,
+   of any job, in any order, changes it *)
+Theorem C06_final_absorbing : forall W ls s s' j, wf W = true -> reachable W s -> steps W s ls = Some s' ->
+  past_loop (pc (jobs s j)) = true ->
+  st (jobs s' j) = st (jobs s j) /\ past_loop (pc (jobs s' j)) = true.
+Proof. exact final_absorbing. Qed.
+Print Assumptions C06_final_absorbing.
+
+(* what job.wait() returned is the job's state, is a finished state, and stays so *)
+Theorem C06_returned_stable : forall W ls s s' j r, wf W = true -> reachable W s -> steps W s ls = Some s' ->
+  pc (jobs s j) = PReturned r -> pc (jobs s' j) = PReturned r /\ st (jobs s' j) = r /\ finished r = true.
+Proof. exact returned_stable. Qed.
+Print Assumptions C06_returned_stable.
+
+(* DONE exactly when the marker pre-existed or the process was launched and exited with 0 *)
+Theorem C06_final_truthful : forall W s j r, wf W = true -> reachable W s -> pc (jobs s j) = PReturned r ->
+  st (jobs s j) = r /\
+  (r = DONE <-> (j_marker (spec W j) = true \/ ((launches (jobs s j) >= 1)%nat /\ j_code (spec W j) = 0))) /\
+  (r <> DONE -> r = ERROR).
+Proof. exact final_truthful. Qed.
+Print Assumptions C06_final_truthful.
+
+(* unfinishedJobs = number of registered jobs that have not returned; never negative *)
+Theorem C06_counter_exact : forall W s, wf W = true -> reachable W s ->
+  unfinished s = Z.of_nat (length (filter (fun j => counted (pc (jobs s j))) (seq 0 (njobs W)))) /\ 0 <= unfinished s.
+Proof. exact counter_exact. Qed.
+Print Assumptions C06_counter_exact.
+
+(* experiment.wait() returns or raises only when every submitted job has returned *)
+Theorem C06_wait_sound : forall W s l s', wf W = true -> reachable W s -> step W s l = Some s' ->
+  wait_completes s s' -> all_final s /\ all_final s' /\ unfinished s = 0.
+Proof. exact wait_sound. Qed.
+Print Assumptions C06_wait_sound.
+
+(* the three defects of the unchanged tree, on the literal pre-fix model *)
+Theorem C06_resubmit_counter_refuted : exists W ls s, wf W = true /\ steps_prefix W (init W) ls = Some s /\
+  unfinished s < 0 /\ quiescent W s /\ wst s = WBlocked /\
+  (forall j, (j < njobs W)%nat -> exists r, pc (jobs s j) = PReturned r).
+Proof. exact resubmit_counter_refuted. Qed.
+Print Assumptions C06_resubmit_counter_refuted.
+
+Theorem C06_ready_overwrite_refuted : exists W ls s j, wf W = true /\ steps_prefix W (init W) ls = Some s /\
+  pc (jobs s j) = PReturned READY /\ launches (jobs s j) = 1%nat /\ j_code (spec W j) = 0.
+Proof. exact ready_overwrite_refuted. Qed.
+Print Assumptions C06_ready_overwrite_refuted.
+
+Theorem C06_abort_race_refuted : exists W ls s j, wf W = true /\ steps_prefix W (init W) ls = Some s /\
+  quiescent W s /\ pc (jobs s j) = PAwaitReady /\ st (jobs s j) = WAITING /\ uns (jobs s j) = 0 /\
+  (forall t, avail s t = total W t) /\ wst s = WBlocked.
+Proof. exact abort_race_refuted. Qed.
+Print Assumptions C06_abort_race_refuted.
